@@ -372,6 +372,21 @@ def requests(seed=1, size="quick"):
                 rv.append((lambda n=n, cm=cm, costs=costs: cs.PeriodicDiskRevolve(n, cm, *costs)))
                 for c1 in (0, 1, 3):
                     rv.append((lambda n=n, cm=cm, c1=c1, costs=costs: cs.HRevolve(n, cm, c1, *costs)))
+    def robj(kind, n, ram, disk, costs):
+        try:
+            with contextlib.redirect_stdout(io.StringIO()):
+                o = cs.HRevolve(n, ram, disk, *costs) if kind == "H" else \
+                    {"D": cs.DiskRevolve, "P": cs.PeriodicDiskRevolve, "R": cs.Revolve}[kind](n, ram, *costs)
+        except Exception as e:   # noqa: BLE001
+            return "raise:" + type(e).__name__
+        return _client(o, cs, None, None)
+    for kind in "HDPR":
+        for n in (0, 1, 2, 3, 4, 6, 9, 13, 20):
+            for ram in (0, 1, 2, 3):
+                for disk in ((0, 1, 2) if kind == "H" else (0,)):
+                    for costs in ((1, 1, 2, 2), (3, 1, 1, 4), (1, 2, 0, 0), (1, 1, 0.25, 0.25)):
+                        out.append(("revObj %s %d %d %d %s %s %s %s" % ((kind, n, ram, disk) + tuple(fr(c) for c in costs)),
+                                    lambda kind=kind, n=n, ram=ram, disk=disk, costs=costs: robj(kind, n, ram, disk, costs)))
     for mk in rv:
         try:
             with contextlib.redirect_stdout(io.StringIO()):
